@@ -47,7 +47,9 @@ Acquire(o, g) ==
 \* the call (exact when nothing overlaps), it never blocks
 GiveUp(o) ==
   /\ pend[o].lin = "" /\ pend[o].op \in TryOps
-  /\ ~Free(pend[o].op) \/ (DOMAIN pend \ {o}) # {}
+  /\ \/ ~Free(pend[o].op)
+     \/ (DOMAIN pend \ {o}) # {}
+     \/ \E g \in DOMAIN guards : guards[g] \in {"xr", "rr"}   \* a release in progress overlaps too
   /\ pend' = [pend EXCEPT ![o] = [@ EXCEPT !.lin = "none"]]
   /\ UNCHANGED <<kind, guards>>
 
